@@ -1439,3 +1439,59 @@ package kapacitor
 //@   loop 3
 //@     invariant n.f != nil && n.diag != nil && fieldPrefix != nil && fields != nil
 //@     invariant forall i int :: 0 <= i && i < len(points) ==> points[i] != nil
+
+// ---------------------------------------------------------------- stream.go (C02)
+// "delivered to each ... from() node whose selection matches it": a from() node passes a point
+// exactly when every filter it declares holds -- database, retention policy and measurement each
+// compared only if set, each independently of the others, and the where() predicate evaluated
+// without error to true. A non-matching point produces nothing; a matching one is forwarded as a
+// copy (the written point is shared by all tasks).
+//@ spec fromSelects(n *FromNode, p edge.PointMessage) bool = (n.db == "" || p.Database() == n.db)
+//@     && (n.rp == "" || p.RetentionPolicy() == n.rp) && (n.name == "" || p.Name() == n.name)
+//@ func (*FromNode).matches
+//@   props C02
+//@   requires n != nil && p != nil && n.diag != nil
+//@   modifies nothing
+//@   ensures !fromSelects(n, p) ==> !result
+//@   ensures fromSelects(n, p) && n.expression == nil ==> result
+//@   ensures fromSelects(n, p) && n.expression != nil ==> result == (second(EvalPredicate(n.expression, n.scopePool, p)) == nil && first(EvalPredicate(n.expression, n.scopePool, p)))
+//@ func (*FromNode).Point
+//@   props C02
+//@   requires n != nil && p != nil && n.diag != nil && n.s != nil
+//@   ensures result1 == nil
+//@   ensures !callresult(matches, 0) ==> result0 == nil
+//@   ensures callresult(matches, 0) ==> result0 != nil && result0 != p
+
+// ---------------------------------------------------------------- http_out.go (C06)
+// "groups ... processed independently": every group of an httpOut node owns one row of the
+// published result, found through the slot number stored in the group. Representation invariant:
+// the k-th registered group holds slot k, and there are as many rows as groups -- so two groups
+// never share a row, and a group's update never lands on a neighbour's row. Creating and deleting
+// groups (a DeleteGroup message from upstream) keep it, and deleting removes exactly that group's
+// slot and row: the groups before keep their place, the groups after move down by one, rows alike.
+//@ spec httpOutOK(n *HTTPOutNode) bool = n != nil && n.result != nil && len(n.indexes) == len(n.result.Series)
+//@     && (forall k int :: 0 <= k && k < len(n.indexes) ==> n.indexes[k] != nil && n.indexes[k].idx == k)
+//@     && distinctarr(n.indexes, n.result.Series)
+//@ func (*HTTPOutNode).deleteGroup
+//@   props C06
+//@   requires httpOutOK(n) && 0 <= idx && idx < len(n.indexes)
+//@   ensures httpOutOK(n) && len(n.indexes) == old(len(n.indexes)) - 1
+//@   ensures forall k int :: 0 <= k && k < idx ==> n.indexes[k] == old(n.indexes[k]) && n.result.Series[k] == old(n.result.Series[k])
+//@   ensures forall k int :: idx <= k && k < len(n.indexes) ==> n.indexes[k] == old(n.indexes[k+1]) && n.result.Series[k] == old(n.result.Series[k+1])
+//@   loop 1
+//@     invariant 0 <= _i && _i <= len(n.indexes) - idx - 1
+//@     invariant forall k int :: 0 <= k && k < len(n.indexes) ==> n.indexes[k].idx == ite(idx < k && k <= idx + _i, k - 1, k)
+//@ func (*HTTPOutNode).newGroup
+//@   props C06
+//@   requires httpOutOK(n)
+//@   ensures result != nil && fresh(result) && result.n == n && result.idx == old(len(n.indexes))
+//@   ensures len(n.indexes) == old(len(n.indexes)) + 1 && len(n.result.Series) == len(n.indexes) && n.indexes[result.idx] == result
+//@   ensures httpOutOK(n)
+//@   ensures forall k int :: 0 <= k && k < old(len(n.indexes)) ==> n.indexes[k] == old(n.indexes[k]) && n.result.Series[k] == old(n.result.Series[k])
+// A group's update lands on the row in the group's slot, and only there.
+//@ func (*HTTPOutNode).updateResultWithRow
+//@   props C06
+//@   requires n != nil && n.result != nil && n.diag != nil && 0 <= idx
+//@   ensures idx < len(n.result.Series) ==> n.result.Series[idx] == row
+//@   ensures len(n.result.Series) == old(len(n.result.Series))
+//@   ensures forall k int :: 0 <= k && k < len(n.result.Series) && k != idx ==> n.result.Series[k] == old(n.result.Series[k])
